@@ -84,7 +84,7 @@ def reply_timeout():
 
 
 def get_reply_shape():
-    """time-out -> cleanup.append + TimeoutError; no reply -> ConnectionError; error prefix -> make_secop_error"""
+    """time-out -> cleanup.append + TimeoutError; no reply -> ConnectionError; error prefix -> make_secop_error (marked from_reply)"""
     f = _method('get_reply')
     body = [s for s in f.body if not (isinstance(s, ast.Expr) and isinstance(s.value, ast.Constant))]
     ok = len(body) == 5
@@ -98,7 +98,10 @@ def get_reply_shape():
                       for r in walk_type(s1, ast.Raise)) and isinstance(s1.body[-1], ast.Raise)
               and _norm(s2) in ('(action,_,data)=entry[2]', 'action,_,data=entry[2]')
               and isinstance(s3, ast.If) and _norm(s3.test) == 'action.startswith(ERRORPREFIX)'
-              and isinstance(s3.body[0], ast.Raise) and _norm(s3.body[0].exc).startswith('make_secop_error(')
+              # since 276f60f the error is built, marked as coming from a reply, and raised
+              and len(s3.body) == 3 and _norm(s3.body[0]) == 'error=make_secop_error(*data[0:2])'
+              and _norm(s3.body[1]) == 'error.from_reply=True'
+              and isinstance(s3.body[2], ast.Raise) and _norm(s3.body[2].exc) == 'error'
               and _norm(s4) == 'returnentry[2]')
     return 'bool', cbool(ok)
 
